@@ -58,6 +58,9 @@ def codec_of(prog, R, role):
 
 def _check_own(ctx):
     prog = ctx.prog
+    from . import vu64dec
+    vu64dec.check_vu64_decoder(ctx, prog)
+    check_slot_end_exprs(ctx, prog)
     R = Roles(prog)
     n_fields = 0
     for kind, r_rec, r_sizer, r_writer in RECS:
@@ -173,6 +176,42 @@ def rabuf_contracts(prog):
     return out
 
 
+def check_slot_end_exprs(ctx, prog, rule="slot-end-from-slot-start"):
+    seek_start = Roles(prog).need("SEEK_START")
+    """`Offset<Piece<T>> + Size<Piece<T>>` is how the lib computes the end of a slot.  The left operand must be a slot
+    *start* (a parameter, a record's own offset field, a free-list pointer, or what seek_from_start returned for one) -
+    never a cursor position queried inside the record (start + width of the fields already consumed): that sum lies
+    beyond the slot, i.e. in the next record or past the end of the file (rabuf extends the file on such a seek)."""
+    n = 0
+    for fn in sorted(prog.fns.values(), key=lambda f: f.id):
+        if fn.crate != "abyssiniandb":
+            continue
+        cn = None
+        for b, t in fn.calls():
+            cal = t.get("callee") or ""
+            ga = t.get("gargs") or []
+            if not cal.endswith("arith::Add::add") or len(ga) != 2 or "semtype::Offset<" not in ga[0] or "semtype::Size<" not in ga[1] or "Piece<" not in ga[0]:
+                continue
+            cn = cn or k7.Canon(prog, fn)
+            lhs = cn.op(t["args"][0], b)
+            n += 1
+            bad = None
+            c = lhs
+            if c[0] == "call":
+                nm = c[1].rsplit("::", 1)[-1]
+                if c[1] == seek_start.id or c[1].endswith("::" + seek_start.name) or nm in ("new", "into", "from", "clone", "unwrap"):
+                    c = c[2][-1] if c[2] else c
+                else:
+                    bad = "the result of %s()" % nm
+            if not bad and c[0] == "bin":
+                bad = "the computed value `%s`" % k7.expr_str(c)
+            if not bad and c[0] in ("?", "c?", "call?"):
+                bad = "an unrecognised expression"
+            ctx.check(bad is None, rule, "%s:%s" % (fn.name, k7.expr_str(lhs)),
+                      "%s adds a slot size to %s, which is not the start of that slot: the sum lies beyond the slot's end" % (short(fn.id), bad), where=where(fn, b))
+    ctx.floor(rule, "Offset + Size sites", n, 4)
+
+
 def check_bounded_writer_contract(ctx, prog, R):
     contracts = rabuf_contracts(prog)
     ctx.floor("bounded-buffer-contract", "rabuf primitives with a buffer-length precondition", len(contracts), 2)
@@ -238,4 +277,5 @@ def check(ctx):
     _check_own(ctx)
     from .engine import import_rules
     # clause 2: the slot is sized from the estimate and honoured by both record writers
-    import_rules(ctx, "c06", {"writer-arms", "alloc", "large-pop-conservation"})
+    import_rules(ctx, "c06", {"writer-arms", "alloc", "large-pop-conservation", "delete-pushes-slot"})
+    import_rules(ctx, "c18", {"full-extent"})
